@@ -743,15 +743,15 @@ func (s *session02) process(c Case, base *Case, br *res02) (*res02, int) {
 		}
 	}
 	if r.viol != nil {
-		if key, mech := classify(c, r.sig.failF1, r.sig.failDepth); key != "" {
+		if key, mech := classify(c, r.sig.failF1, r.sig.failPrefix, r.sig.failDepth); key != "" {
 			recordFinding(s.sum, key, mech+r.viol.what, c, r.sig, func() (Case, string) {
 				sc := shrink02(c, r.cut, func(cand Case, rc *res02) bool {
-					k, _ := classify(cand, rc.sig.failF1, rc.sig.failDepth)
+					k, _ := classify(cand, rc.sig.failF1, rc.sig.failPrefix, rc.sig.failDepth)
 					return k == key
 				})
 				what := mech + r.viol.what
 				if r2 := runC02(sc); r2.viol != nil {
-					_, m2 := classify(sc, r2.sig.failF1, r2.sig.failDepth)
+					_, m2 := classify(sc, r2.sig.failF1, r2.sig.failPrefix, r2.sig.failDepth)
 					what = m2 + r2.viol.what
 				}
 				return sc, what
@@ -763,7 +763,7 @@ func (s *session02) process(c Case, base *Case, br *res02) (*res02, int) {
 		if firstOfItsKind(r.viol.kind, c) {
 			kind := r.viol.kind
 			sc = shrink02(c, r.cut, func(cand Case, rc *res02) bool {
-				k, _ := classify(cand, rc.sig.failF1, rc.sig.failDepth)
+				k, _ := classify(cand, rc.sig.failF1, rc.sig.failPrefix, rc.sig.failDepth)
 				return rc.viol.kind == kind && k == ""
 			})
 			if r2 := runC02(sc); r2.viol != nil {
@@ -772,7 +772,7 @@ func (s *session02) process(c Case, base *Case, br *res02) (*res02, int) {
 		}
 		s.sum.Violations = append(s.sum.Violations, map[string]any{"what": what, "case": sc, "evicting_config": evicting(c),
 			"node_cap_vs_max_path_depth":       fmt.Sprintf("%d vs %d", c.NodeCap, r.sig.failDepth),
-			"sig_dirty_node_with_evicted_leaf": r.sig.failF1, "sig_dirty_pointer_without_node": r.sig.failF2})
+			"sig_dirty_node_with_evicted_leaf": r.sig.failF1, "sig_dirty_pointer_without_node": r.sig.failF2, "had_prefix_pair": r.sig.failPrefix})
 		return r, idx
 	}
 	// S(1): a twin ends at its base's root
@@ -810,9 +810,9 @@ func (s *session02) pairViolation(what string, a Case, asig sigState, b Case, bs
 		c   Case
 		sig sigState
 	}{{b, bsig}, {a, asig}} {
-		if key, mech := classify(m.c, m.sig.f1, m.sig.maxDepth); key != "" {
+		if key, mech := classify(m.c, m.sig.f1, m.sig.hadPrefix, m.sig.maxDepth); key != "" {
 			sig := m.sig
-			sig.failF1, sig.failF2, sig.failDepth = sig.f1, sig.f2, sig.maxDepth
+			sig.failF1, sig.failF2, sig.failPrefix, sig.failDepth = sig.f1, sig.f2, sig.hadPrefix, sig.maxDepth
 			w := mech + "pair violation: " + what
 			recordFinding(s.sum, key, w, m.c, sig, func() (Case, string) { return m.c, w })
 			return
